@@ -2495,7 +2495,55 @@ theorem scanLines_lines : ∀ (lines : List Bytes), (∀ l ∈ lines, LineOk l) 
     rw [dropCRrev_no13 _ (fun b hb => (hl.1 b (List.mem_reverse.1 hb)).2)]
     simp
 
+/-- Scan does not give up inside a line that fits the buffer -/
+theorem tooLong_line : ∀ (l rest : Bytes) (n : Nat), (∀ b ∈ l, b ≠ 10) → n + l.length < maxTok →
+    tooLong (l ++ 10 :: rest) n = tooLong rest 0 := by
+  intro l
+  induction l with
+  | nil => intro rest n _ _; simp [tooLong]
+  | cons b t ih =>
+    intro rest n h hn
+    have hb := h b List.mem_cons_self
+    have hlim : ¬ (n + 1 ≥ maxTok) := by simp only [List.length_cons] at hn; omega
+    simp only [List.cons_append, tooLong, hb, if_false, hlim]
+    exact ih rest (n + 1) (fun x hx => h x (List.mem_cons_of_mem _ hx)) (by simp only [List.length_cons] at hn; omega)
+
+/-- **tooLong_false_of_short** - a text made of LF-terminated lines that all fit the buffer (the same line facts
+`scanLines_lines` uses): Scanner.Err stays nil -/
+theorem tooLong_false_of_short : ∀ (lines : List Bytes), (∀ l ∈ lines, LineOk l) →
+    tooLong (lines.flatMap fun l => l ++ [10]) 0 = false := by
+  intro lines
+  induction lines with
+  | nil => intro _; simp [tooLong]
+  | cons l t ih =>
+    intro h
+    have hl := h l List.mem_cons_self
+    simp only [List.flatMap_cons, List.append_assoc, List.singleton_append]
+    rw [tooLong_line l _ 0 (fun b hb => (hl.1 b hb).1) (by have := hl.2; omega)]
+    exact ih (fun x hx => h x (List.mem_cons_of_mem _ hx))
+
 /-! #### the section loop -/
+
+/-- the loop over the lines has no error outcome of its own: a record or a panic -/
+theorem readLoop_ne_error : ∀ (ls : List Bytes) (s : RSt), readLoop ls s ≠ .error := by
+  intro ls
+  induction ls with
+  | nil =>
+    intro s h
+    unfold readLoop at h
+    split at h <;> cases h
+  | cons l t ih =>
+    intro s h
+    unfold readLoop at h
+    split at h
+    · exact ih _ h
+    · split at h
+      · split at h
+        · exact ih _ h
+        · split at h
+          · cases h
+          · exact ih _ h
+      · exact ih _ h
 
 theorem readLoop_collect : ∀ (block rest : List Bytes) (s : RSt), (∀ l ∈ block, ∃ b t, l = b :: t ∧ isUpperB b = false) →
     readLoop (block ++ rest) s = readLoop rest { s with lines := block.reverse ++ s.lines } := by
@@ -2881,13 +2929,47 @@ theorem flush_origin (fs : List Feat) (origin : Bytes) (h : ∀ b ∈ origin, is
   have hne' : originWord ≠ featuresWord := by decide
   simp only [flush, rst, hne', if_false, if_true, List.reverse_reverse, parseOrigin_render origin h, recF, recFO]
 
+/-- **gb_short_lines_unchanged** - on a text in which Scan never gives up (no 1 MiB without a newline), the repaired
+reader (which looks at Scanner.Err after its loop) does exactly what the reader did before: the section loop over the
+scanned lines -/
+theorem gb_short_lines_unchanged (text : Bytes) (h : tooLong text 0 = false) :
+    readGenBank text = readLoop (scanLines text [] 0) rstInit := by
+  have hr : readGenBank text = match readLoop (scanLines text [] 0) rstInit with
+      | .panic => .panic
+      | .error => .error
+      | .ok r => if tooLong text 0 then .error else .ok r := rfl
+  rw [hr, h]
+  cases readLoop (scanLines text [] 0) rstInit <;> simp
+
+/-- **gb_long_line_reported** - a text in which Scan gives up on an over-long line is never read as a record: the
+outcome is the error (or the panic of a section BEFORE that line, raised inside the loop). Before the repair of the Go
+reader the lines before the long one were parsed and returned as if the file ended there. -/
+theorem gb_long_line_reported (text : Bytes) (h : tooLong text 0 = true) (r : Record) : readGenBank text ≠ .ok r := by
+  have hr : readGenBank text = match readLoop (scanLines text [] 0) rstInit with
+      | .panic => .panic
+      | .error => .error
+      | .ok r => if tooLong text 0 then .error else .ok r := rfl
+  rw [hr, h]
+  cases readLoop (scanLines text [] 0) rstInit <;> simp
+
+/-- more precisely: the error, unless the loop over the lines before the long one panics -/
+theorem gb_long_line_result (text : Bytes) (h : tooLong text 0 = true) :
+    readGenBank text = .error ∨ (readGenBank text = .panic ∧ readLoop (scanLines text [] 0) rstInit = .panic) := by
+  have hr : readGenBank text = match readLoop (scanLines text [] 0) rstInit with
+      | .panic => .panic
+      | .error => .error
+      | .ok r => if tooLong text 0 then .error else .ok r := rfl
+  rw [hr, h]
+  cases readLoop (scanLines text [] 0) rstInit <;> simp
+
 /-- **GenBank round trip.** For every non-empty list of well-formed features and every ORIGIN sequence of ASCII letters,
 the reader (bufio.Scanner line splitting, section detection, parseGenbankFEATURES, parseGenbankORIGIN) gives back, from
 the rendered flat file, every feature in order - key, location text, all qualifiers - and the sequence. -/
 theorem gb_roundtrip (feats : List FeatS) (origin : Bytes) (hne : feats ≠ []) (hf : ∀ f ∈ feats, FeatOk f)
     (ho : OriginOk origin) :
     readGenBank (render feats origin) = .ok { features := some (feats.map expected), origin := some origin } := by
-  have hinit : readGenBank (render feats origin) = readLoop (scanLines (render feats origin) [] 0) rstInit := rfl
+  have hinit : readGenBank (render feats origin) = readLoop (scanLines (render feats origin) [] 0) rstInit :=
+    gb_short_lines_unchanged _ (tooLong_false_of_short _ (lineOk_renderLines feats origin hf ho))
   rw [hinit]
   unfold render
   rw [scanLines_lines _ (lineOk_renderLines feats origin hf ho)]
